@@ -104,6 +104,11 @@ def run(tier, replay=None):
         for e in sc["emitted"]:
             if e["kind"] == "progress" and pm:
                 e["pmode"] = pm
+    # the level a handler passes to SendLogMessage arrives as it was passed
+    for sc in scs:
+        for e in sc["emitted"]:
+            if e["kind"] == "log" and not e["meta"] and rnd.random() < 0.6:
+                e["lvl"] = rnd.choice(["WARN", "Info", "warn", "verbose", "error", "debug"])
     # the server's session flavour is a concretisation too: the answers of a POST are streamed the same way in all three
     for sc in scs:
         sc["srv"] = rnd.choice(["stateful", "stateful", "stateless", "nosession"])
@@ -128,6 +133,13 @@ def run(tier, replay=None):
             a["rereg"] = b2["rereg"] = False
             byid[a["id"]], byid[b2["id"]] = a, b2
             pairs.append([strip(a), strip(b2)])
+    # one call that emits far more notifications than any hand-over holds, to a handler slower than the stream: all of them arrive
+    nflood = 600
+    flood = {"id": "flood", "mode": "sse", "srv": "stateful", "reg": ["progress"], "rereg": False, "slow_us": 700,
+             "emitted": [{"kind": "progress", "meta": False, "i": i + 1, "size": 0, "typed": False, "meta_only": False} for i in range(nflood)]}
+    flood["_expected"] = [{"kind": "progress", "meta": False, "i": i + 1} for i in range(nflood)]
+    byid["flood"] = flood
+    groups.append([strip(flood)])
     allgroups = groups + pairs
     nproc = 12
     chunks = [allgroups[i::nproc] for i in range(nproc)]
@@ -153,7 +165,8 @@ def run(tier, replay=None):
                 rps[rr["id"]] = judge(run_, sc, rr, rr["id"][-1] in "xy")
                 if sc["_expected"]:
                     run_.nontriv([sc["mode"], sc["reg"], sc["emitted"], rr["id"][-1] in "xy"])
-                items.append((rr["id"], rr["trace"]))
+                if rr["id"] != "flood":      # beyond the constants of TraceInCall; judged above
+                    items.append((rr["id"], rr["trace"]))
                 if len(run_.samples) < 3 and sc["_expected"]:
                     run_.sample({"scenario": strip(sc), "expected_dispatch": sc["_expected"], "trace": rr["trace"]})
     rej = tracebatch.validate(run_, "TraceInCall", "TraceInCall.cfg", items)
